@@ -65,6 +65,13 @@ claim('C16',
       'Relational checks with the order as a solver variable: dicts and sets of 2-3 keys from 8 key pools (ints, strs, int/float and bool/int mixes, negative floats, dates, numeric-looking strs, tuples) are built in every pair of insertion orders (a set\'s iteration order is an explicit permutation) and must dump to the same text with sort_keys, nested or not; without sort_keys the insertion order must survive dump and load; dump(load(dump(x))) == dump(x) over a 24-value table (shared dates, shared and recursive containers, look-alike strings) x 5 styles x 3 flow styles x canonical x sort_keys; anchor names over list/dict graphs with symbolic child pointers, dumped twice from different object identities.',
       'Py leg only. Separate interpreters with different PYTHONHASHSEED are not run: hash randomisation only changes iteration order, which is quantified over explicitly (M6). Anchor ids are handed out at the second encounter of a node, so their textual order is not checked, only that they are id001..idN per document and a function of the graph.')
 
+claim('C18',
+      'An instrumented stream records how much has been requested each time the real generator API (load_all, compose_all, parse) hands a document to the caller. The stream is assembled from solver variables: the kinds of the 2-3 leading documents (8 kinds: empty, one character, simple key, flow collection, block scalar, 40 characters, closed by "...", closed by "..." followed by comments), the kind of a 3-block tail (comments, further documents, blank lines, a block sequence), whether a malformed document ends the stream, text or UTF-8 bytes, and the sizes of the first reads. Checked: at most end(k) + 2*4096 units requested when document k is delivered; every well-formed document delivered before the error; the loader disposed exactly once, also when the iteration is abandoned by close / del / break.',
+      'Py leg only. Document sizes are concrete (only kinds, schedule and tail are solver variables). A document without a "..." marker ends where the next token begins: comments and blank lines after it have to be crossed before it can be delivered. The look-ahead mechanism itself is decided as a one-step invariant under C09.')
+claim('C19',
+      'The fault point is a solver variable: the index of the failing read() (text, UTF-8 and UTF-16 streams, 1- and 7-unit reads, including the reads used for encoding detection), of the failing write() or flush(), or of the failing invocation of a user constructor / representer, together with the kind of exception (9 kinds, among them classes the library itself catches or raises: UnicodeDecodeError, UnicodeEncodeError, YAMLError, ReaderError, AttributeError, KeyError). Checked on every path: the very same exception object reaches the caller; what was written before the fault is a prefix of the fault-free output; a following reference load and dump give the reference result; the deep snapshot of the package\'s global state is unchanged.',
+      'Py leg only. StopIteration is excluded as an injected exception (PEP 479 turns it into RuntimeError inside any generator: a language rule, not library behaviour).')
+
 NA = {
  'C06': 'every comparison is between two artefacts of libyaml (a compiled system .so behind a Cython binding that cannot be rebuilt offline); symbolic values are realised at the extension boundary, so no solver variable survives into the code under comparison',
  'C20': 'asymptotic growth over input sizes: bounded symbolic execution cannot observe doubling and an unbounded cost argument is proof-assistant work; the anchored look-ahead mechanisms are decided as one-step invariants under C09/C18',
